@@ -8,8 +8,9 @@
      src/core/struct.c  janet_struct_begin, janet_struct_put_ext, janet_struct_end   (see Value/Struct.lean)
 
    Numbers are abstract: any type `N` with `NumLike N` (IEEE `==`, `<`, and the 64-bit pattern after `d += 0.0`).
-   The laws that non-NaN doubles satisfy are the class `LawfulNum` (Value/Lemmas.lean); `F64` below is the executable
-   instance on 64-bit patterns used by the driver (its lawfulness is proved in Value/F64.lean).
+   The laws that non-NaN doubles satisfy are the class `LawfulNum` (Value/Lemmas.lean), the laws of all doubles, NaN
+   included, the class `LawfulNaNNum` (Value/NaNNum.lean); `F64` below is the executable instance on ALL 64-bit patterns
+   used by the driver (Value/F64.lean: `LawfulNaNNum F64`, hence `LawfulNum (NonNaN F64)`).
 
    CORE LEAN ONLY (the driver links this file). -/
 import JanetModel.Gen.Value
@@ -250,9 +251,11 @@ def isNaN (x : F64) : Bool := 0x7FF0000000000000 < x.mag
 def key (x : F64) : Int := if x.neg then -(x.mag : Int) else (x.mag : Int)
 end F64
 
+/-- IEEE-754 `==`, `<` and `d += 0.0` on 64-bit patterns, NaN included: a NaN is `==` to nothing (not even itself) and
+    unordered; `+= 0.0` turns −0 into +0 and quiets a signalling NaN (sets the top mantissa bit), everything else is kept -/
 instance : NumLike F64 where
-  eq a b := a.key == b.key
-  lt a b := a.key < b.key
-  normBits a := if a.bits == 0x8000000000000000 then 0 else a.bits
+  eq a b := !a.isNaN && !b.isNaN && a.key == b.key
+  lt a b := !a.isNaN && !b.isNaN && decide (a.key < b.key)
+  normBits a := if a.bits == 0x8000000000000000 then 0 else if a.isNaN then a.bits ||| 0x0008000000000000 else a.bits
 
 end JanetModel.Value
